@@ -225,12 +225,12 @@ theorem configure_wf (ext : Ext) (kind : RuleKind) (props : List (String × Json
   | preserve => rfl
   | strategy => rfl
   | regexes key =>
-    simp only [build, paramsWF]
-    cases hl : lookup key props with
+    simp only [build, paramsWF, beq_self_eq_true, Bool.true_and]
+    cases hl : lookup key.name props with
     | none => simp [strListOf]
     | some v =>
-      have hk : kindOfKey (.regexes key) key = some .regexList := by simp [kindOfKey, schema]
-      have := propKind_of_lookup ext _ props key v _ hall hl hk
+      have hk : kindOfKey (.regexes key) key.name = some .regexList := by simp [kindOfKey, schema]
+      have := propKind_of_lookup ext _ props key.name v _ hall hl hk
       cases v <;> simp [hasKind] at this
       rename_i xs
       cases hs : strList? xs with
